@@ -812,3 +812,76 @@ func ThroughReturns(v ssa.Value) []ssa.Value {
 
 // PkgCallers: see pkgCallers.
 func PkgCallers(fn *ssa.Function) []ssa.Instruction { return pkgCallers(fn) }
+
+
+// LiftTo returns the instruction of fn that (transitively, through sole call sites) contains the execution of in:
+// in itself when it is in fn, the call of its function otherwise; nil if there is no such chain (three levels).
+func LiftTo(fn *ssa.Function, in ssa.Instruction) ssa.Instruction {
+	for d := 0; in != nil && d < 4; d++ {
+		if in.Parent() == fn {
+			return in
+		}
+		in = SoleCallSite(in.Parent())
+	}
+	return nil
+}
+
+// DerivesThrough: every root of v - followed through parameters (Roots), and through the results of helper functions of
+// the package (ThroughReturns) - satisfies pred.
+func DerivesThrough(v ssa.Value, pred ValPred) bool {
+	var walk func(v ssa.Value, d int) bool
+	walk = func(v ssa.Value, d int) bool {
+		rs := Roots(v, false)
+		if len(rs) == 0 {
+			return false
+		}
+		for _, r := range rs {
+			if pred(r) {
+				continue
+			}
+			if d > 3 {
+				return false
+			}
+			ts := throughReturns1(r) // one level at a time: pred is asked before each further expansion
+			if len(ts) == 1 && ts[0] == r {
+				return false
+			}
+			for _, t := range ts {
+				if IsNilConst(t) {
+					continue // the nil returned next to an error
+				}
+				if !walk(t, d+1) {
+					return false
+				}
+			}
+		}
+		return true
+	}
+	return walk(v, 0)
+}
+
+
+// throughReturns1: ThroughReturns, one level only.
+func throughReturns1(v ssa.Value) []ssa.Value {
+	cl, idx := CallOfValue(v)
+	if cl == nil {
+		return []ssa.Value{v}
+	}
+	sc := cl.Call.StaticCallee()
+	if sc == nil || len(sc.Blocks) == 0 || cl.Parent() == nil || PkgOf(sc) != PkgOf(cl.Parent()) {
+		return []ssa.Value{v}
+	}
+	if idx < 0 {
+		idx = 0
+	}
+	var out []ssa.Value
+	for _, b := range sc.Blocks {
+		if ret, ok := b.Instrs[len(b.Instrs)-1].(*ssa.Return); ok && idx < len(ret.Results) {
+			out = append(out, ret.Results[idx])
+		}
+	}
+	if len(out) == 0 {
+		return []ssa.Value{v}
+	}
+	return out
+}
